@@ -199,7 +199,7 @@ func TestVerifC52(t *testing.T) {
 		depth      int
 	}
 	plans := vx.Pick(r,
-		[]plan{{"base", "medium", 2}, {"ooo", "medium", 2}, {"ooo", "small", 3}},
+		[]plan{{"base", "medium", 2}, {"ooo", "medium", 2}, {"snap", "small", 2}, {"ooo", "small", 3}},
 		[]plan{{"ooo", "medium", 3}, {"base", "medium", 3}, {"ooo+snap", "medium", 3}, {"snap", "small", 4}, {"ooo", "small", 4}, {"oooneg", "small", 4}, {"ooo", "small", 5}})
 	// FIRST: search from non-initial states (m-mapped out-of-order chunks, pending head chunks, blocks,
 	// tombstones ... — structures the counters have to survive a restart with)
